@@ -294,3 +294,13 @@ func sanitize(s string) string {
 		return '_'
 	}, s)
 }
+
+// IsKnownFinding: is (rule, key) of this property listed as a known finding?
+func IsKnownFinding(prop, rule, key string) bool {
+	for _, k := range loadKnown().Known {
+		if k.Property == prop && k.Rule == rule && k.Key == key {
+			return true
+		}
+	}
+	return false
+}
